@@ -94,6 +94,15 @@ def cases_for(tier):
         cases.append(('corpus', deep, dict(width=w)))
         cases.append(('corpus', ('list', [('str', '')]), dict(width=w)))
         cases.append(('corpus', ('dict', [(('str', ''), ('bytes', b''))]), dict(width=w, indent=8)))
+    # containers longer than any limit built into the package (the context's own default is 1000), nested,
+    # with truncation switched off or far away: nothing may be cut
+    long_list = ('list', [('int', i % 10) for i in range(1001)])
+    long_dict = ('dict', [(('int', i), ('bool', i % 2 == 0)) for i in range(1100)])
+    long_set = ('set', [('int', i) for i in range(1001)])
+    for inner in (long_list, long_dict, long_set, ('tuple', long_list[1])):
+        for outer in (('list', [inner]), ('dict', [(('str', 'k'), ('tuple', [inner, ('int', 1)]))]), inner):
+            for msl in (None, 5000):
+                cases.append(('corpus', outer, dict(width=79, max_seq_len=msl)))
     return cases
 
 
